@@ -10,18 +10,26 @@ CLAIMED = {
     "C01": dict(
         category="proof",
         text="Coq theorems (templates_all_ok, every_template_pass_sound, parallel_decomposer_sound, fused_window_sound, "
-             "clifford_candidate_sound, rotation_normalisation_preserves_action): every "
-             "GateKindDecomposer template regenerated from /repo implements its target gate up to a global phase for "
-             "all real angles, all placements on distinct qubits and circuits of any length; the template data are "
-             "re-extracted from the source on every run and validated against the real decompose(); a numpy-oracle "
-             "sweep over every transpiler class/preset/configuration searches for failing inputs and covers the "
-             "passes whose bodies are numeric (KAK, eig) or not yet modelled.",
-        design_ref="DESIGN.md section 4 (C01)",
-        note="Trusted: Coq kernel+vm_compute; Reals axioms + functional_extensionality_dep; translate/templates.py; "
-             "documented matrices of gates.py as spec; numpy oracle. Partial: KAK/SU2 numeric bodies, Pauli-string "
-             "decomposers, epsilon-snapping passes and Quantinuum/IonQ native passes are decided by the sweep only.",
-        technique="Coq proof over regenerated templates (vm_compute reflection into an n-qubit operator semantics) + "
-                  "correspondence + numpy differential sweep"),
+             "clifford_candidate_sound, rotation_normalisation_preserves_action; native: native_templates_all_ok, "
+             "native_parallel_decomposer_sound, u1q_normalize_branch_sound, cnotrz2rzz_pass_sound, "
+             "ionq_native_equals_output_then_frame, ionq_native_preserves_measurement_statistics): every "
+             "GateKindDecomposer template regenerated from /repo - including the Quantinuum/IonQ native ones over the "
+             "documented U1q/ZZ/RZZ/XX/GPi/GPi2/MS matrices - implements its target gate up to a global phase for "
+             "all real angles, all placements on distinct qubits and circuits of any length; the CNOTRZ2RZZ sliding "
+             "window preserves every circuit; IonQNativeTranspiler, whenever it returns, yields the input up to one RZ "
+             "per qubit (virtual-Z frame invariant) and hence the same computational-basis statistics, and rejects "
+             "gates it has no branch for. The generic-theta branch of U1qNormalizeWithRZTranspiler is a recorded "
+             "finding, refuted as a theorem (it implements U1q(-theta, phi)). All data are re-extracted from the source "
+             "on every run and validated against the real decompose()/__call__; a numpy-oracle sweep over every "
+             "transpiler class/preset/pipeline stage/configuration searches for failing inputs and covers the "
+             "passes whose bodies are numeric (KAK, eig).",
+        design_ref="DESIGN.md section 4 (C01), 9.2",
+        note="Trusted: Coq kernel+vm_compute; Reals axioms + functional_extensionality_dep; translate/templates.py, "
+             "translate/native.py; documented matrices of gates.py and of the native gate docstrings as spec (IonQ phases "
+             "in turns, MS phi0 on its first target); numpy oracle. Partial: KAK/SU2 numeric bodies (self-validating "
+             "since fix 8e85f3f), Pauli-string decomposers and epsilon-snapping are decided by the sweep only.",
+        technique="Coq proof over regenerated templates/branches/rows (vm_compute reflection into an n-qubit operator "
+                  "semantics; frame invariant by induction over the circuit) + correspondence + numpy differential sweep"),
     "C06": dict(
         category="proof",
         text="Coq theorems (conj_tables_ok, clifford_conjugation_sound, non_clifford_rejected): for the conjugation "
@@ -44,8 +52,9 @@ CLAIMED = {
              "[g; inverse_gate g] = identity up to phase for all real angles and placements; hence c + "
              "inverse_circuit(c) is the identity and gate folding with any number of full folds and any set of "
              "additionally folded gates preserves the action, for circuits of any length; documented gate count of "
-             "uniform folding. The rows of U2 and U3 are REFUTED as theorems about the regenerated table "
-             "(regenerated_u2/u3_row_is_not_an_inverse, witnesses U2(0,0), U3(pi,pi/2,0)) and listed as known findings. The "
+             "uniform folding. The rows of U2 and U3 (listed known findings that really fail the exact check) are REFUTED "
+             "as theorems about the regenerated table in an optional file (regenerated_u2/u3_row_is_not_an_inverse); "
+             "once repaired in /repo they are covered by inverse_circuit_undoes again without an alarm. The "
              "folding model is tied to scaling_circuit_folding by vm_compute correspondence; a numpy sweep covers "
              "PauliRotation, UnitaryMatrix, the residual-count arithmetic and noiseless ZNE.",
         design_ref="DESIGN.md section 4 (C12)",
@@ -257,7 +266,8 @@ CLAIMED = {
              "and fingerprints; numpy sweep on ideal distributions and rejections.",
         design_ref="DESIGN.md section 4 (C18)",
         note="Trusted: Coq kernel+vm_compute; funext (+Reals axioms for the circuit theorem); correspondence harness. "
-             "Partial: rejection of duplicate targets / unmapped qubits and the qiskit/braket wrappers by sweep.",
+             "Partial: rejection of duplicate targets / unmapped qubits and the qiskit/braket wrappers (wrap_C18.py: braket "
+             "LocalSimulator with split shots, qiskit utils loaded from its file with a fake job) by sweep.",
         technique="Coq proof (bit-extensionality on N, induction over gate lists) + vm_compute correspondence + sweep"),
     "C08": dict(
         category="proof",
